@@ -32,6 +32,7 @@ func main() {
 	fs.StringVar(&o.statsOut, "stats", "", "stats output file")
 	fs.StringVar(&o.replayIn, "replay", "", "replay file")
 	fs.StringVar(&modelBin, "model", "/verif/lean/.lake/build/bin/echomodel", "model driver binary")
+	fs.StringVar(&inflightDir, "inflight", "", "directory for in-flight case records")
 	fs.IntVar(&o.maxReport, "max-report", 3, "max violations written out")
 	fs.Parse(os.Args[2:])
 	p, ok := registry[id]
